@@ -3,7 +3,9 @@
    case   = ( ppmode ( orc orc orc orc ) ( step ... ) )
      ppmode = 0|1                       preprocessor cache mode of the DiskCache
      orc    = ( pp_status upd c_status c_out )      the fake compiler's behaviour for translation unit 0..3;
-                                                    status 99 = the server's own code panics before spawning it
+                                                    status 99 = the server's own code panics before spawning it;
+                                                    status 98 = the process is killed by signal 9 (no exit code:
+                                                    reported as status 256 + 9)
    step   = ( req tu class cc outdir_ok ( ppget ppupd ppput get put ) )
           | ( par req req ... )          concurrent requests (distinct translation units, no transient faults)
           | ( midzero req )            ZeroStats issued while the request is held inside its cache lookup
@@ -66,11 +68,11 @@ Definition mk_oracle (ppmode : bool) (t : N) (x : sx) : oracle :=
             generate_hash_key is still in the code (and in the model) but no lookup takes it any more.  The
             case's [upd] flag still makes the harness put __TIMESTAMP__ into the unit's header. *)
          o_upd := false && get_bool upd;
-         o_pp_status := if get_N pps =? 99 then 0 else get_N pps;
+         o_pp_status := if get_N pps =? 99 then 0 else if get_N pps =? 98 then 265 else get_N pps;
          o_pp_stderr := bs "ppe" ++ digit t;
          o_manifest_ok := true;
          o_key := tu_key t;
-         o_c_status := if get_N cs =? 99 then 0 else get_N cs;
+         o_c_status := if get_N cs =? 99 then 0 else if get_N cs =? 98 then 265 else get_N cs;
          o_c_stdout := bs "out" ++ digit t;
          o_c_stderr := bs "err" ++ digit t;
          o_c_outputs := [(bs "obj", tu_obj t)];
@@ -147,7 +149,8 @@ Definition broken_over (ro : bool) (f : faults) : faults :=
 
 Definition dec_class (x : sx) : req_class :=
   if is_sym "unsupported" x then QUnsupported else if is_sym "vanished" x then QUnsupported
-  else if is_sym "notcompile" x then QNotCompile else if is_sym "cannotcache" x then QCannotCache 0
+  else if is_sym "notcompile" x then QNotCompile else if is_sym "noargs" x then QNotCompile   (* empty argument list *)
+  else if is_sym "cannotcache" x then QCannotCache 0
   else if is_sym "cannotcache2" x then QCannotCache 1 else QCompile.       (* compile, msvc_nc *)
 
 Definition dec_cc (x : sx) : cache_control :=
